@@ -208,3 +208,45 @@ func ZZH_C02_Opened() {
 		zzvReach("sparse")
 	}
 }
+
+// Many relationships: an opened package whose document relationship part holds the dense ids
+// rId1 (styles), rId2 .. rId(n+1) for n = 7..10 pictures - so the one- to two-digit boundary of
+// the id numbers is crossed - is extended by two further relationship-creating calls and saved.
+func ZZH_C02_ManyRelationships() {
+	n := 7 + zzvChoice(4)
+	rels := `<?xml version="1.0" encoding="UTF-8"?>` + "\n" + `<Relationships xmlns="` + zzhNSRel + `">`
+	rels += `<Relationship Id="rId1" Type="http://schemas.openxmlformats.org/officeDocument/2006/relationships/styles" Target="styles.xml"/>`
+	names := []string{"[Content_Types].xml", "_rels/.rels", "word/document.xml", "word/styles.xml", "word/_rels/document.xml.rels"}
+	parts := map[string][]byte{"[Content_Types].xml": []byte(zzhContentTypesXML), "_rels/.rels": []byte(zzhTopRelsXML), "word/styles.xml": []byte(zzhStylesXML)}
+	for i := 0; i < n; i++ {
+		media := "media/image" + zzvItoa(i) + ".png"
+		rels += `<Relationship Id="rId` + zzvItoa(i+2) + `" Type="` + zzhRelImage + `" Target="` + media + `"/>`
+		names = append(names, "word/"+media)
+		parts["word/"+media] = zzhPNG
+	}
+	rels += `</Relationships>`
+	parts["word/_rels/document.xml.rels"] = []byte(rels)
+	parts["word/document.xml"] = []byte(zzhDocXML(`<w:p><w:r><w:t>x</w:t></w:r></w:p>`))
+	d, err := zzhOpen(names, parts)
+	zzvAssert(err == nil && d != nil, "a valid package opens")
+	if d == nil {
+		return
+	}
+	for k := 0; k < 2; k++ {
+		switch zzvChoice(3) {
+		case 0:
+			_, e := d.AddImageFromData(zzhPNG, "n.png", ImageFormatPNG, 10, 10, nil)
+			zzvAssume(e == nil)
+		case 1:
+			zzvAssume(d.AddHeader([...]HeaderFooterType{HeaderFooterTypeDefault, HeaderFooterTypeFirst}[k], "h") == nil)
+		case 2:
+			zzvAssume(d.AddFooter([...]HeaderFooterType{HeaderFooterTypeDefault, HeaderFooterTypeFirst}[k], "f") == nil)
+		}
+	}
+	data, err := d.ToBytes()
+	zzvAssert(err == nil, "ToBytes succeeds")
+	pkg, ok := zzhReadZipBytes(data)
+	zzvAssert(ok, "the package is a readable archive")
+	zzhCheckPackageRels(pkg)
+	zzvReach("many relationships")
+}
